@@ -29,6 +29,39 @@ PROPS = {
         "exhaustive": {"quick": False, "thorough": False},
         "assumptions": TABLE_ASSUME,
     },
+    "C03": {
+        "rule": "histories of the 13 variable-body tables (same generators as C01: every entry kind alone, all ordered pairs, "
+                "homogeneous runs across 255/256 entries and 65535/65536 bytes, random mixtures, variable-size entries with 0..70 "
+                "sub-elements and strings of both parities); the Spec walker is run on every observed image and must find exactly "
+                "the entries the Spec derives from the operations (type code, length, order), land on the end, and the count/offset "
+                "fields must match; distinct = distinct case text",
+        "exhaustive": {"quick": False, "thorough": False},
+        "assumptions": TABLE_ASSUME,
+    },
+    "C04": {
+        "rule": "same histories as C01 over all 22 structures; every observed image must equal, byte for byte, the reference image "
+                "assembled by the Spec layer from offset-indexed layouts (SPEC_NOTES.md section A) for the values the harness passed; "
+                "an in-domain history must not be refused; distinct = distinct case text",
+        "exhaustive": {"quick": False, "thorough": False},
+        "assumptions": TABLE_ASSUME + ["reference layouts are transcriptions of the named specifications (SPEC_NOTES.md); "
+                                       "crate-chosen constants are taken from the crate"],
+    },
+    "C05": {
+        "rule": "histories of the four handle-returning tables (PPTT, RHCT, RIMT, VIOT): all interleavings of node kinds for short "
+                "histories, random long ones, later nodes referring to earlier handles; every returned handle must be the offset at "
+                "which the Spec walker finds the node in every later image, and the images must equal the reference images in which "
+                "a handle reference is the node's offset",
+        "exhaustive": {"quick": False, "thorough": False},
+        "assumptions": TABLE_ASSUME,
+    },
+    "C11": {
+        "rule": "histories of the option-bearing structures (MADT GICC / MSI frame / enable states, SRAT affinities, HMAT locality, "
+                "PPTT nodes, RIMT/VIOT booleans, CEDT CFMWS, HEST AER, TCPA server, FADT): entries built with random subsets, orders "
+                "and repetitions of their option builders; the image must equal the reference image (flag = union of the bits of the "
+                "options invoked; nothing else changes)",
+        "exhaustive": {"quick": False, "thorough": False},
+        "assumptions": TABLE_ASSUME,
+    },
     "C06": {
         "rule": "cases = random trees over all exported AML constructors (grammar-aware generator: statements, expressions, data "
                 "objects, named objects, method calls with per-name arity, field lists; depth 1..6, node budget 60..300) plus a "
